@@ -25,7 +25,9 @@ class DeflateZipModel(JWEZipModel):
         else:
             decompressor = zlib.decompressobj(-zlib.MAX_WBITS)
         value = decompressor.decompress(s, MAX_SIZE)
-        if decompressor.unconsumed_tail:
+        # zlib may hold pending output although all input was consumed (empty ``unconsumed_tail``):
+        # probe for one more octet so that an over-long plaintext is never returned truncated
+        if decompressor.unconsumed_tail or (len(value) == MAX_SIZE and decompressor.decompress(b"", 1)):
             raise ExceededSizeError(f"Decompressed string exceeds {MAX_SIZE} bytes")
         return value
 
